@@ -171,6 +171,11 @@ func modelQuads(s string) ([]rdf.Quad, error) {
 
 // labelOf is the blank node labeller used everywhere: bnode i is "_:" + labelOf(i).
 func labelOf(i int) string {
+	if i < 0 {
+		// the empty label (only drawn by the encoder stage, hypothesis lbl of encoder_roundtrip_natural_partial):
+		// the StringProvider of the encoder is the caller's, nothing in /repo's API keeps it from answering ""
+		return ""
+	}
 	if i == 0 {
 		return "b" // a one-character label: boundary of the decoder's `len(s) > 2 && s[:2] == "_:"` tests
 	}
